@@ -28,7 +28,7 @@ from vlib.runner import Result, h64
 PROPERTY = 'C17'
 LEVEL = 'exploration'
 RULE = ('Small contexts of every family taking num_randbits (MP/MPS/MPB float, EFloat, IEEE, MP/MPB/Fixed/SM fixed) '
-        'x 8 base modes x k in {1,2,3,4,6,None} (thorough: also 8,10). Operands: for each selected gap between adjacent '
+        'x 8 base modes x k in {1,2,3,4,6,None} (thorough: also 8, and 10 on every other configuration). Operands: for each selected gap between adjacent '
         'representable magnitudes (all subnormal gaps incl. (0,minsub), the gaps on both sides of 2^emin, the last gaps '
         'below maxval, a seeded sample of the rest; both signs) the positions j/2^(k+2) of the gap (all j for k<=3, '
         'boundary-biased subset above), both endpoints, non-dyadic positions ((j+1/3)/2^(k+2), ties of the extended '
@@ -52,8 +52,8 @@ ASSUMPTIONS = [
     'Flags are not checked here (C01/C02 do).',
 ]
 EXHAUSTIVE = {'quick': False, 'thorough': False}
-FLOORS = {'t=2^k (ext rounds onto hi)': 0.005, 't=0 (ext rounds onto lo)': 0.005, 'subnormal': 0.03, 'topgap': 0.01,
-          'negative': 0.2, 'representable': 0.02, 'above-max': 0.002, 'nondyadic': 0.03, 'op': 0.01, 'zero': 0.0005,
+FLOORS = {'t=2^k (ext rounds onto hi)': 0.005, 't=0 (ext rounds onto lo)': 0.005, 'subnormal': 0.03, 'topgap': 0.005,
+          'negative': 0.2, 'representable': 0.01, 'above-max': 0.0005, 'nondyadic': 0.03, 'op': 0.005, 'zero': 0.0005,
           'base-mode-matters': 0.1, 'tie-ext': 0.02}
 
 K_QUICK = (1, 2, 3, 4, 6, None)
@@ -215,6 +215,8 @@ def shards(tier, seed):
     out = []
     for i in range(len(sp)):
         for k in ks:
+            if k is not None and k >= 10 and i % 2:
+                continue                      # 1024 draws per operand: every other configuration only
             out.append(('round', i, k, tier, seed))
     for i in op_configs(tier):
         for k in ((1, 2, 3, 4, None) if tier == 'thorough' else (1, 3, None)):
@@ -303,15 +305,22 @@ def gaps_of(m, neg, tier, rnd, k=1):
         if m.p is not None and b == pow2(floor_log2(b)) and a != 0 and 'subnormal' not in cl:
             cl.append('binade-end')
         allg.append((a, b, cl))
+    if lim is None and allg:
+        allg[-1][2].append('far')                  # wide exponent / large integer part, unbounded formats only
     big = k is not None and k >= 6
     cap = (40 if not big else (16 if k == 6 else (6 if k == 8 else 4))) if tier == 'thorough' else 14
     if len(allg) <= cap:
         return allg
     must = [x for x in allg if x[2] and 'binade-end' not in x[2]]
-    rest = [x for x in allg if x not in must]
-    if len(must) > cap - 4:
-        # keep the extremes of the compulsory ones
-        must = must[:(cap - 4) // 2 + 1] + must[-((cap - 4) // 2):]
+    rest = [x for x in allg if not (x[2] and 'binade-end' not in x[2])]
+    if len(must) > cap - 2:
+        # always: (0, minsub), the gaps on both sides of 2^emin, the last gap below maxval; then other subnormal gaps, evenly
+        two_emin = pow2(m.nmin + m.p) if (m.p is not None and m.nmin is not None) else None
+        top = [x for x in must if x[0] == 0 or 'topgap' in x[2] or 'above-2^emin' in x[2] or 'far' in x[2] or x[1] == two_emin]
+        other = [x for x in must if x not in top]
+        n_other = max(0, cap - 2 - len(top))
+        step = max(1, len(other) // n_other) if n_other else 0
+        must = top + (other[::step][:n_other] if n_other else [])
     room = max(2, cap - len(must))
     pick = sorted(rnd.sample(range(len(rest)), min(room, len(rest))))
     sel = must + [rest[i] for i in pick]
@@ -618,9 +627,59 @@ def check_zero_special(res, ctx, m, rng, k_ctx, label):
 # ---------------------------------------------------------------------------
 # shard bodies
 
+def plan_operands(m, k, tier, rnd):
+    """Operand list of one (format, k): [(x, carrier name, object, classes, second pass?)] and the number of
+    non-dyadic operands left out under k=None.  Does not depend on the rounding mode."""
+    every = 1 if (k is not None and k <= 2) else (3 if (k is None or k <= 4) else 8)      # second (reverse-order) pass
+    plan, skipped = [], 0
+    oi = 0
+    for neg in (False, True):
+        gl = gaps_of(m, neg, tier, rnd, k)
+        lim = limit(m, neg)
+        seen = set()
+        for lo, hi, gcl in gl:
+            gap = hi - lo
+            fr = operands_for_gap(k, tier, rnd)
+            pts = [(lo + f * gap, tag) for f, tag in fr]
+            # both endpoints (representable)
+            for e in (lo, hi):
+                if e != 0:
+                    pts.append((e, 'endpoint'))
+            for a, tag in pts:
+                if a in seen:
+                    continue
+                seen.add(a)
+                if tag == 'nondyadic' and k is None:
+                    skipped += 1
+                    continue
+                x = -a if neg else a
+                oi += 1
+                cname, obj = carrier(x, oi, k)
+                cl = list(gcl)
+                if tag == 'nondyadic':
+                    cl.append('nondyadic')
+                plan.append((x, cname, obj, cl, oi % every == 0))
+        # first gap above the largest value of this sign, and far above: membership only
+        if lim is not None:
+            probe = lim + (pow2(m.nmin + 1) if m.p is None else (pow2(floor_log2(lim) - m.p + 1) if lim > 0 else pow2(m.nmin + 1))) / 2
+            plo, phi = neighbours(probe, m.p, m.nmin)
+            gap = phi - plo
+            tops = [plo + gap * f for f in (Fraction(1, 4), Fraction(1, 2), Fraction(3, 4), Fraction(7, 8) + Fraction(1, 3 * 64))]
+            tops.append(phi)                                   # representable on the unbounded grid but out of range
+            tops.append((lim if lim > 0 else gap) * 5 + gap / 4)
+            for a in tops:
+                if k is None and not F.dyadic(a):
+                    continue
+                x = -a if neg else a
+                oi += 1
+                cname, obj = carrier(x, oi, k)
+                plan.append((x, cname, obj, [], oi % every == 0))
+    return plan, skipped
+
+
 def run_round_shard(res: Result, idx, k, tier, seed):
     kind, args, kw = config_space(tier)[idx]
-    every = 1 if (k is not None and k <= 2) else (3 if (k is None or k <= 4) else 8)      # second (reverse-order) pass
+    plan = None
     for rm in MODES:
         rng = ScriptedRandom()
         try:
@@ -629,51 +688,14 @@ def run_round_shard(res: Result, idx, k, tier, seed):
             raise RuntimeError(f'configuration rejected: {kind} {args} {kw} {rm} k={k}: {e}')
         label = label_of(kind, args, kw, rm, k)
         res.count('contexts')
-        rnd = random.Random(h64(seed, 'C17', idx, k, 'ops'))      # same operands for every mode
-        oi = 0
-        for neg in (False, True):
-            gl = gaps_of(m, neg, tier, rnd, k)
-            lim = limit(m, neg)
-            seen = set()
-            for lo, hi, gcl in gl:
-                gap = hi - lo
-                fr = operands_for_gap(k, tier, rnd)
-                pts = [(lo + f * gap, tag) for f, tag in fr]
-                # both endpoints (representable)
-                for e in (lo, hi):
-                    if e != 0:
-                        pts.append((e, 'endpoint'))
-                for a, tag in pts:
-                    if a in seen:
-                        continue
-                    seen.add(a)
-                    if tag == 'nondyadic' and k is None:
-                        res.skip('k=None with non-dyadic operand (needs infinitely many bits)')
-                        continue
-                    x = -a if neg else a
-                    oi += 1
-                    cname, obj = carrier(x, oi, k)
-                    case = {'sub': 'round', 'ctx': label, 'carrier': cname, 'operand': show(x)}
-                    cl = list(gcl)
-                    if tag == 'nondyadic':
-                        cl.append('nondyadic')
-                    check_value(res, m, rng, k, label, case, x, (lambda o=obj: ctx.round(o)), classes=cl, both_orders=(oi % every == 0))
-            # first gap above the largest value of this sign, and far above: membership only
-            if lim is not None:
-                probe = lim + (pow2(m.nmin + 1) if m.p is None else (pow2(floor_log2(lim) - m.p + 1) if lim > 0 else pow2(m.nmin + 1))) / 2
-                plo, phi = neighbours(probe, m.p, m.nmin)
-                gap = phi - plo
-                tops = [plo + gap * f for f in (Fraction(1, 4), Fraction(1, 2), Fraction(3, 4), Fraction(7, 8) + Fraction(1, 3 * 64))]
-                tops.append(phi)                                   # representable on the unbounded grid but out of range
-                tops.append((lim if lim > 0 else gap) * 5 + gap / 4)
-                for a in tops:
-                    if k is None and not F.dyadic(a):
-                        continue
-                    x = -a if neg else a
-                    oi += 1
-                    cname, obj = carrier(x, oi, k)
-                    case = {'sub': 'round', 'ctx': label, 'carrier': cname, 'operand': show(x)}
-                    check_value(res, m, rng, k, label, case, x, (lambda o=obj: ctx.round(o)), classes=[], both_orders=(oi % every == 0))
+        if plan is None:
+            # same operands for every mode (the grid does not depend on the mode)
+            plan, skipped = plan_operands(m, k, tier, random.Random(h64(seed, 'C17', idx, k, 'ops')))
+        if skipped:
+            res.skip('k=None with non-dyadic operand (needs infinitely many bits)', skipped)
+        for x, cname, obj, cl, second in plan:
+            case = {'sub': 'round', 'ctx': label, 'carrier': cname, 'operand': show(x)}
+            check_value(res, m, rng, k, label, case, x, (lambda o=obj: ctx.round(o)), classes=cl, both_orders=second)
         check_zero_special(res, ctx, m, rng, k, label)
 
 
